@@ -29,7 +29,7 @@ func c19HTTP(c *core.Case) *core.Result {
 	w.b.Taint()
 	r := c.Rng
 	g := w.g
-	key := fmt.Sprintf("hd%d", c.Index)
+	key := fmt.Sprintf("Hd%dK", c.Index) // mixed case: names are case-sensitive on every route
 	w.ledger.SkipKeys[key] = true
 	proc, err := w.b.StartProc(filepath.Join(core.OutDir, "work", fmt.Sprintf("c19http-%d", c.Index)), 0, 0)
 	if err != nil {
